@@ -41,6 +41,12 @@ CHECKS = {
  "C20": dict(cat="exploration", technique="conservation monitor: broker statistics vs the scripted clients' wire log at logically reached quiescent points, plus gauge poller",
    text="Seeded multi-client scenarios (all packet types incl. AUTH, QoS 0-2, exactly known drops of three kinds, reconnects, take-overs, terminations) are run against a real broker; at quiescence every per-client and global packet/byte counter, per-QoS message and drop counter, queued/in-flight gauge and connection/session counter is compared with ground truth derived from the clients' own packet logs and the scenario; globals are compared with the sum of the per-client values; gauges are sampled every 100 us for wrap below zero.",
    note="trusted: mqttx sizes; quiescence via sentinel+PINGREQ barriers; 'sent' counters of displaced connections compared with >=; transient gauge states shorter than the sampling period can be missed", ref="§5 C20"),
+ "C08": dict(cat="exploration", technique="timed wire-level monitor (independent subscriber + hook timestamps) over the cross product of will settings, connection endings and re-attachments",
+   text="For every combination of will settings, way of ending the connection, session expiry and re-attachment timing, an independent Retain-As-Published QoS2 subscriber, the retained store and the OnClosed timestamp decide whether, when (outside a 400 ms margin, within delay+5 s), how often and with which content the will was published.",
+   note="real time; timing verdicts must recur; session end by the 20 s expiry ticker is not exercised", ref="§5 C08"),
+ "C12": dict(cat="exploration", technique="timed wire-level monitor with measured waiting intervals and margins",
+   text="Messages with and without expiry from v5/v3/API publishers wait in the broker (subscriber online, offline, or slow) for times chosen well on either side of min(expiry, configured maximum); delivery vs drop+OnMsgDropped(expired) and the forwarded Message Expiry Interval are checked against the measured waiting interval.",
+   note="real time, 400 ms margins, cases inside the margin are inconclusive, verdicts must recur", ref="§5 C12"),
 }
 
 def main():
